@@ -46,7 +46,7 @@ def prepare():
 def budgets(tier):
     if tier == 'quick':
         return dict(shards=16, examples=60)
-    return dict(shards=16, examples=2500, deadline_s=3000)
+    return dict(shards=16, examples=5000, deadline_s=3000)
 
 
 def letter_msg(letter, counter, own_id=1, own_len=0):
